@@ -346,7 +346,7 @@ def f12(ctx, rid):
             if c.bb in f.reachable() and c.name in sides and 'IndexTrait' in c.path and len(c.args) > 1:
                 sites = []
                 lv = core.scalar_leaves(prog, f, c.args[1], depth=4, sites=sites)
-                sides[c.name].append((f, c, frozenset(lv), frozenset(n for (n, _, _) in sites)))
+                sides[c.name].append((f, c, frozenset(x for x in lv if x[0] in ('call', 'field')), frozenset()))
     if not sides['dump'] or not sides['load']:
         raise core.AnchorLost('Blob -> IndexTrait::dump/load call sites: %d/%d' % (len(sides['dump']), len(sides['load'])))
     ref = sides['load'][0]
